@@ -128,9 +128,13 @@ def run_path(interp: Interp, fi, contract):
     if contract.emits is not None:
         emits_obligations(interp, fq, contract, o, n, result, ctx.trace[n_pre_events:])
     frame_obligations(interp, fq, old, roots, contract.modifies_list(o), contract.props)
-    for label, when, mods in contract.cond_frames:
+    for cf in contract.cond_frames:
+        label, when, mods = cf[:3]
         frame_obligations(interp, fq, old, roots, (mods(o) if callable(mods) else mods), contract.props,
                           tag=label, hyp=when(o))
+        if len(cf) > 3 and cf[3].get("silent"):
+            ctx.oblige(f"{fq}::post::{label}.silent", Implies_(when(o), len(ctx.trace[n_pre_events:]) == 0), kind="post",
+                       props=contract.props)
     effect_obligations(interp, fq, contract)
     return "return", repr(result)[:80]
 
@@ -364,7 +368,12 @@ def discharge(ob: Obligation, rlimit=Z3_RLIMIT, use_cvc5=True):
         return "unsat", "simplify", time.time() - t0, None
     parts = split_goal(list(ob.hyps), ob.goal)
     backend_used = "z3"
+    hyp_ids = {h.get_id() for h in ob.hyps}
     for full_hyps, goal in parts:
+        # stage 0: the goal is literally one of the hypotheses (unchanged invariant conjunct)
+        if goal.get_id() in hyp_ids or any(goal.get_id() == h.get_id() for h in full_hyps[len(ob.hyps):]):
+            backend_used = backend_used if backend_used != "z3" else "z3"
+            continue
         # stage 1: cone-of-influence reduced query (fast; proves most goals, gives clean counter-models)
         reduced = cone_of_influence(full_hyps, goal)
         reduced_model = None
@@ -461,7 +470,7 @@ def model_to_dict(m):
     return out
 
 
-def verify_function(world, contract, use_cvc5=True, known=(), only_prop=None):
+def verify_function(world, contract, use_cvc5=True, known=(), only_prop=None, part=None):
     """Full per-function run. Returns a JSON-able dict."""
     import re
     t0 = time.time()
@@ -477,6 +486,8 @@ def verify_function(world, contract, use_cvc5=True, known=(), only_prop=None):
     n_all = len(obligations)
     if only_prop is not None:
         obligations = [ob for ob in obligations if only_prop in ob.props]
+    if part is not None:  # (i, n): this worker discharges every n-th obligation (the exploration is repeated per worker)
+        obligations = [ob for k, ob in enumerate(obligations) if k % part[1] == part[0]]
     for ob in obligations:
         verdict, backend, dt, model = discharge(ob, use_cvc5=use_cvc5)
         solver_time += dt
